@@ -34,15 +34,19 @@ EXPLANATION = ("Theorems about the definitions the driver runs. Definitions: fp/
                "lenAt_eq_split_sum(_rooted): that function is the total length of the edges of the tree AS DRAWN inducing the split "
                "(unifurcation suppression adds lengths; rooted: rooted_splits_nodup shows no edge is lost). Metric: symmetric (value and "
                "definedness), zero on equal inputs and only between equal split->length functions, triangle (Euclid: Minkowski on roots; "
-               "euclidSq_nonneg links square and root). Representation: rf_zero_iff_topology (rooted RF = 0 iff same topology), "
-               "fpfn_redraw_rooted, dist_child_order_rooted, dist_redraw_rooted (children reordered + unifurcations inserted with the "
-               "length split: no weighted distance changes, rooted), fpfn_seed_path (any path of seed moves of an unrooted tree keeps all "
-               "unweighted distances). Histories: history_default_call_is_fresh (after ANY interleaving of edits and calls with either "
-               "flag, a default call returns the value of the current structures), default_call_ignores_stored_encoding, "
-               "updated_call_uses_stored_encoding, namespace_refusal. _partial: dist_seed_move_partial (one seed move keeps wRF/Euclid; "
-               "Nodup of the normalised split lists is assumed, iteration not proved), fpfn_child_order_partial / dist_child_order_partial "
-               "(superseded for rooted trees; for not-rooted trees a bifurcating seed is excluded), rf_zero_seed_move_partial (superseded "
-               "by fpfn_seed_path).")
+               "euclidSq_nonneg: the square is >= 0 and its root is 0 iff it is - the root itself is not modelled). Representation, "
+               "unweighted: rf_zero_iff_topology (rooted) and rf_zero_iff_unrooted_topology (not rooted, >= 3 taxa, any seed position / "
+               "child order / bifurcating seed): RF = 0 iff same topology; fpfn_redraw_rooted / fpfn_redraw_unrooted: a re-drawing changes "
+               "no unweighted distance against a third tree. Representation, weighted: dist_child_order_rooted, dist_redraw_rooted "
+               "(children reordered + unifurcations inserted with the length split, ROOTED trees; values when both defined). For trees "
+               "that are not rooted the weighted invariance is NOT proved as a statement about trees: dist_child_order_partial and "
+               "dist_seed_move_partial ASSUME that the normalised split lists are duplicate-free and exclude a bifurcating seed. "
+               "fpfn_seed_path / rf_zero_seed_move_partial speak about paths between the ENCODED forms and are superseded by "
+               "rf_zero_iff_unrooted_topology. Histories (Model/C04State.lean; the driver's `hist` and `sdist` ops execute run / step / "
+               "weightedCall / fpfnCall / missingCall on every generated history and the harness compares every answer): "
+               "history_default_call_is_fresh, default_call_ignores_stored_encoding, updated_call_uses_stored_encoding, namespace_refusal "
+               "are bookkeeping over that model (true by construction of `step`); that the library behaves like the model rests on the "
+               "correspondence and the oracle, not on a proof.")
 
 ROOT = c01.ROOT
 UNROOT = {"R": True, "U": False, "N": None}
@@ -273,14 +277,35 @@ def trees_of_case(dendropy, c, tns=None):
 
 
 # ------------------------------------------------------------------ calling the library
+class LibraryCrash(Exception):
+    """the library failed with an exception it did not raise on purpose (no `raise` statement at the point of failure): never a
+    refusal, always a failure of the case being judged"""
+
+
+def deliberate(exc):
+    """a refusal is an exception that library code RAISES: the innermost frame is library code and the statement executing there
+    is a `raise`.  (A TypeError / AttributeError / ... escaping from an expression deep inside is a crash, whatever its type;
+    a deliberate `raise` of any exception class is a refusal, whatever its type.)"""
+    import linecache
+    tb = exc.__traceback__
+    while tb.tb_next is not None:
+        tb = tb.tb_next
+    line = linecache.getline(tb.tb_frame.f_code.co_filename, tb.tb_lineno).strip()
+    return line.startswith("raise ") or line == "raise"
+
+
 def call(fn, *a, **kw):
-    """("v", value) or ("E", "<Type>: text") when a LIBRARY frame raised; an exception raised by harness code propagates"""
+    """("v", value), or ("E", "<Type>: text") when library code deliberately raised; LibraryCrash when it crashed; an exception
+    raised by harness code propagates unchanged"""
     try:
         return "v", fn(*a, **kw)
     except Exception as e:
         if not common.is_library_exception(e):
             raise
-        return "E", "%s: %s" % (type(e).__name__, str(e)[:120])
+        text = "%s: %s" % (type(e).__name__, str(e)[:120])
+        if not deliberate(e):
+            raise LibraryCrash("%s crashed with %s" % (getattr(fn, "__name__", "call"), text))
+        return "E", text
 
 
 def measure(ctx, dendropy, t1, t2, case):
@@ -311,13 +336,11 @@ def measure(ctx, dendropy, t1, t2, case):
 
 
 def check_refusal(ctx, m, t1, t2, case):
-    """a refusal needs a missing length somewhere; wRF and Euclid agree on whether the pair is refused"""
+    """a refusal needs a missing length somewhere.  (Whether wRF and Euclid refuse the SAME pairs is not in the statement - it only
+    asks each function to be symmetric in whether it is defined - so it is left to the model correspondence.)"""
     for k in ("wrf", "euclid"):
         if m[k] == "E" and not (has_missing_length(t1) or has_missing_length(t2)):
             ctx.fail("definedness", "%s refused (%s) although no edge below the seeds lacks a length" % (k, m.get(k + "_err")), case)
-    if (m["wrf"] == "E") != (m["euclid"] == "E"):
-        ctx.fail("definedness", "weighted RF and Euclidean distance disagree on whether the pair is refused (wRF: %s, Euclid: %s)" % (
-            m.get("wrf_err", "value"), m.get("euclid_err", "value")), case)
 
 
 def judge_pair(ctx, dendropy, t1, t2, case, pending, label="dist", extras=True, context=""):
@@ -409,10 +432,10 @@ def extra_surface(ctx, dendropy, t1, t2, m, case, extras=True):
     for name, key, enc, fn in weighted:
         a, b = fresh(enc)
         st, v = call(fn, a, b)
-        if (st == "E") != (m[key] == "E"):
-            ctx.fail("definedness", "%s is %s but the function with default arguments is %s" % (
-                name, "refused (%s)" % v if st == "E" else "defined", "refused" if m[key] == "E" else "defined"), dict(case, fn=name))
-        elif st != "E" and not close(v, m[key]):
+        if st == "E":
+            if not (has_missing_length(t1) or has_missing_length(t2)):
+                ctx.fail("definedness", "%s refused (%s) although no edge below the seeds lacks a length" % (name, v), dict(case, fn=name))
+        elif m[key] != "E" and not close(v, m[key]):
             ctx.fail("weighted-value", "%s = %r, the function with default arguments gives %r" % (name, v, m[key]), dict(case, fn=name))
 
 
@@ -422,6 +445,37 @@ def flush(ctx, pending):
         if o is None:
             continue
         ctx.compared()
+        if "hist" in m:
+            body, _, tail = o.rpartition(" | ")
+            outs_m = body.split(";") if body else []
+            want = [r for r in m["hist"]]
+            ok = len(outs_m) == len(want) and tail == "1 1"
+            if ok:
+                for om, r in zip(outs_m, want):
+                    if r is None:
+                        continue
+                    name, impl = r
+                    f = om.split()
+                    if name == "symmetric_difference":
+                        good = len(f) == 2 and int(f[0]) + int(f[1]) == impl
+                    elif name == "false_positives_and_negatives":
+                        good = len(f) == 2 and (int(f[0]), int(f[1])) == impl
+                    elif name == "find_missing_bipartitions":
+                        good = f[:1] == ["m"] and sorted(set(int(x) for x in f[1:])) == impl
+                    else:
+                        g = f[0] if name == "weighted_robinson_foulds_distance" else f[1]
+                        if (g == "E") != (impl == "E"):
+                            good = False
+                        elif g == "E":
+                            good = True
+                        elif name == "weighted_robinson_foulds_distance":
+                            good = close(impl, float(Fraction(g)))
+                        else:
+                            good = close(impl, math.sqrt(float(Fraction(g))))
+                    ok = ok and good
+            if not ok:
+                ctx.disagree("hist", case, str(want), o)
+            continue
         if "sdist" in m:
             name, impl = m["sdist"]
             if o == "refused" or impl == "refused":
@@ -538,7 +592,11 @@ def judge_namespace(ctx, dendropy, case, pending):
             if encoded:
                 t1.encode_bipartitions()
                 t2.encode_bipartitions()
-            st, v = call(fn, treecompare, t1, t2)
+            try:
+                st, v = call(fn, treecompare, t1, t2)
+            except LibraryCrash as e:
+                ctx.fail("exception", "namespace: %s on trees over different namespaces: %s (a crash is not a refusal)" % (name, e), dict(case, fn=name))
+                continue
             if name in UNWEIGHTED and not encoded:
                 cur = [snapshot(t1), snapshot(t2)]
                 pending.append((sdist_line(False, 0, 1, cur, [None, None]), dict(case, fn=name), {"sdist": (name, canon_unweighted(name, st, v))}))
@@ -574,6 +632,31 @@ def canon_unweighted(name, st, v):
     if name == "false_positives_and_negatives":
         return tuple(v)
     return sorted(set(bp.split_bitmask for bp in v))
+
+
+def hist_redrawn(hist, before, trees):
+    """a call re-draws its arguments in place (unifurcations suppressed, basal bifurcation opened): the model's tree objects do
+    not do that by themselves, so the new drawing is handed to them as an edit (which leaves the stored encoding alone)"""
+    for k in (0, 1):
+        now = snapshot(trees[k])
+        if now != before[k]:
+            hist["evs"].append("AB"[k] + " " + " ".join(now[0]))
+
+
+def hist_event(hist, name, updated, st, v):
+    """one call event of the model's `run` (Model/C04State.lean) with what the library answered"""
+    if name in UNWEIGHTED:
+        code = ("M" if name == "find_missing_bipartitions" else "F") + ("1" if updated else "0")
+        hist["evs"].append(code)
+        hist["res"].append((name, canon_unweighted(name, st, v)))
+    elif not updated:
+        hist["evs"].append("W")
+        hist["res"].append((name, "E" if st == "E" else v))
+    else:
+        # the weighted functions with is_bipartitions_updated=True are not modelled; their effect on the stored encodings
+        # (a tree never encoded is encoded) is that of any other call with the flag: result not compared
+        hist["evs"].append("F1")
+        hist["res"].append(None)
 
 
 # ---- histories
@@ -627,7 +710,7 @@ def gen_step(rng):
     return step
 
 
-def history_call(ctx, dendropy, name, t1, t2, d1, d2, case, when, edited, old, pending=None):
+def history_call(ctx, dendropy, name, t1, t2, d1, d2, case, when, edited, old, pending=None, hist=None):
     """one call with default arguments on the LIVE trees, judged against the from-scratch tables of their current structure.
     A wrong answer after an edit is `stale` when the same call on fresh copies of the current trees is right (so the live
     objects' cached data is to blame), otherwise it is a plain definition failure."""
@@ -639,6 +722,9 @@ def history_call(ctx, dendropy, name, t1, t2, d1, d2, case, when, edited, old, p
     if name in UNWEIGHTED and pending is not None:      # the model's tree objects: default arguments ignore the stored encodings
         pending.append((sdist_line(False, 0, 0, cur, old), case, {"sdist": (name, canon_unweighted(name, st, v))}))
     old[0], old[1] = cur          # every public function encodes both trees before anything else
+    if hist is not None:
+        hist_event(hist, name, False, st, v)
+        hist_redrawn(hist, cur, (t1, t2))
     fcase = dict(case, fn=name)
     weighted = name in ("weighted_robinson_foulds_distance", "euclidean_distance")
     if st == "E":
@@ -682,8 +768,10 @@ def judge_history(ctx, dendropy, case, pending, rng=None, nsteps=0):
     case["basal_bifurcation_survives"] = basal_survives(t1) or basal_survives(t2)
     d1, d2 = split_lengths(t1), split_lengths(t2)
     old = [None, None]        # (tokens, rooting) of each tree when its bipartition encoding was last stored
+    start = [snapshot(t1), snapshot(t2)]
+    hist = {"evs": [], "res": []}          # the same history as ONE line for the model's `run` / `step` / `weightedCall`
     for name in case.get("first_calls", FUNCS):       # populate encodings and split -> edge maps
-        history_call(ctx, dendropy, name, t1, t2, d1, d2, case, "before any edit", False, old, pending)
+        history_call(ctx, dendropy, name, t1, t2, d1, d2, case, "before any edit", False, old, pending, hist)
     i = 0
     while True:
         if rng is not None:
@@ -697,6 +785,8 @@ def judge_history(ctx, dendropy, case, pending, rng=None, nsteps=0):
         if not apply_edit(dendropy, trees, step):
             continue
         case["basal_bifurcation_survives"] = basal_survives(t1) or basal_survives(t2)     # of the drawings this step's calls start from
+        k_ed = step["tree"] % 2
+        hist["evs"].append("AB"[k_ed] + " " + " ".join(snapshot(trees[k_ed])[0]))
         d1, d2 = split_lengths(t1), split_lengths(t2)
         for name in step.get("updated_first", ()):
             # may legitimately be stale: not judged by the oracle, but the unweighted ones are predicted by the model's stored encodings
@@ -708,9 +798,15 @@ def judge_history(ctx, dendropy, case, pending, rng=None, nsteps=0):
             for k in (0, 1):
                 if old[k] is None:
                     old[k] = cur[k]      # a tree never encoded is encoded now; an encoded one keeps its stored encoding
+            hist_event(hist, name, True, st, v)
+            hist_redrawn(hist, cur, (t1, t2))
         for name in step["calls"]:
-            history_call(ctx, dendropy, name, t1, t2, d1, d2, dict(case, steps=steps[:i]), "after edit %d (%s of tree %d)" % (i, step["edit"], step["tree"] + 1), True, old, pending)
+            history_call(ctx, dendropy, name, t1, t2, d1, d2, dict(case, steps=steps[:i]), "after edit %d (%s of tree %d)" % (i, step["edit"], step["tree"] + 1), True, old, pending, hist)
     ctx.case(["history", case["tree"], case["tree2"], steps], True, sample=dict(case, steps=steps[:3]), kind="history")
+    if hist["evs"]:
+        line = "hist 0 0 %s %s %s %s %d %s" % (start[0][1], start[1][1], " ".join(start[0][0]), " ".join(start[1][0]),
+                                            len(hist["evs"]), " ".join(hist["evs"]))
+        pending.append((line, dict(case, steps=steps[:i]), {"hist": hist["res"]}))
     return case
 
 
@@ -871,6 +967,8 @@ def judge(ctx, dendropy, case, pending):
     """run one case; a library exception escaping a judge (outside the places where the statement allows a refusal) is a failure"""
     try:
         JUDGES[case["op"]](ctx, dendropy, case, pending)
+    except LibraryCrash as e:
+        ctx.fail("exception", "%s: %s (an exception that is not raised on purpose is a crash, not a refusal)" % (case["op"], e), case)
     except NamespaceBits as e:
         ctx.fail("namespace-bits", "%s: the taxon namespace built for this case through the public API does not give its members "
                  "pairwise distinct bits: %s" % (case["op"], e), case)
@@ -954,6 +1052,8 @@ def run_op(ctx, dendropy, op, pending):
     if op == "history":
         try:
             judge_history(ctx, dendropy, case, pending, rng=ctx.rng, nsteps=ctx.rng.randint(1, 4))
+        except LibraryCrash as e:
+            ctx.fail("exception", "history: %s (an exception that is not raised on purpose is a crash, not a refusal)" % e, case)
         except Exception as e:
             if not common.is_library_exception(e):
                 raise
@@ -965,7 +1065,7 @@ def run_op(ctx, dendropy, op, pending):
 def run(ctx):
     dendropy = __import__("dendropy")
     rng = ctx.rng
-    ctx.set_budget(45, 600)
+    ctx.set_budget(35, 600)
     pending = []
     names = [o[0] for o in OPS]
     weights = [o[1] for o in OPS]
